@@ -197,11 +197,18 @@ def _rca_degenerate(m, h, op, D):
 
 
 def gen_plan(seed, tier):
-  return gen_history(
-      seed, tier, n_ops=(3, 9), dmax=8, pre_p=0.15, extras_p=0.0,
+  plan = gen_history(
+      seed, tier, n_ops=(3, 9), dmax=8, pre_p=0.15, extras_p=0.3,
       weights=dict(query=4, refit=30, handout=0, mutate=0,
                    restart=5, clone=3, ambient=8, eigsh=10, set_nondata=3, failfit=6,
                    fault=0, new=12, interrupt=6, calibrate=4, threshold=2), crash_sweep_p=0.05, int_dtype_p=0.12, calib_other_p=0.5)
+  for op in plan.get("ops", []):
+    b = (op.get("extras") or {}).get("bounds")
+    if b and b["$arr"].get("lo") != 1e12:
+      # arbitrary user bounds may be infeasible (ITML then legitimately diverges): C03 only keeps
+      # the generous ones, which the prior satisfies for every pair
+      del op["extras"]["bounds"]
+  return plan
 
 
 def run_plan(plan):
